@@ -659,3 +659,64 @@ example : Model.Mvp60.StraightLineRet Proofs.Mvp60SlWitness.slrApp = true ∧
    Proofs.Mvp60SlWitness.slr_p4.trans Proofs.Mvp60SlWitness.slr_seq.symm⟩
 
 end Props.C01
+
+/-! ## MVP-6.0 (package R60b, step 2): conditional branches -/
+namespace Props.C01
+
+/-- **C01 for MVP-6.0 on register-only programs with conditional branches and `ret` (safety), one execute and write unit.**
+Every parsed program of the class `Model.Mvp60.BranchOnly` (no load/store, no `div`/`rem`, no `j`/`jal`/`jalr`; conditional
+branches forward and backward and `ret` allowed; every label defined and pointing to an instruction), every initial state
+related to a specification machine with `sequenceID = 0` (what `NewContext` installs), parallelism K ≤ 1, every fuel and
+tick budget: if the model run ends and the specification run ends within its fuel, they end the same way with the
+specification's registers and memory.  A taken branch whose target is not the next instruction flushes: the results on the
+write bus are older than the branch (sequence id = pc, pcs increase between two flushes) and are all kept by the drain
+(`Props.C03.mvp60_flush_drain_drops_younger_keeps_older`), `m.flush(pc)` empties the pipeline, fetch restarts at the target.
+NOT yet proved: two or more units (then instructions behind the branch execute in the tick of the flush; the drain lemma covers
+their results, the missing invariant is that no second BRANCH executes in that tick) — asserted by the check (`r60`). -/
+theorem mvp60_branchonly_correct (app : App) (hw : WfApp app) (hbo : Model.Mvp60.BranchOnly app = true)
+    (ctx : Model.Context) (m : Spec.Machine) (hR : Rel ctx m) (hpw : ∀ r, GoMap.get1 ctx.PendingWriteRegisters r = 0)
+    (hseq : ctx.sequenceID = 0) (K : Nat) (hK : K ≤ 1) (fuel ticks : Nat) (hk : Halt)
+    (hh : (Model.Mvp60.run app ctx K K ticks).halt = some hk) (hnp : ∀ w, hk ≠ .panic w) :
+    Agree4 (Spec.run (specProg app) m fuel) hk (Model.Mvp60.run app ctx K K ticks).final.ctx := by
+  have h1 := mvp1_correct app hw ctx m hR fuel
+  unfold Agree at h1
+  unfold Agree4
+  obtain ⟨n, e1, e2⟩ := Proofs.Mvp60Sl.mvp60_g_refines_mvp1 app ⟨hw.small, hw.nofwd, Proofs.Mvp60Sl.proved_of_branchOnly app hbo⟩
+    ctx ⟨hR.rat, hR.tx, hpw⟩ K ticks hk (Or.inl hseq) (Or.inl hK) hh hnp
+  cases hstop : (Spec.run (specProg app) m fuel).stop with
+  | notWf w => trivial
+  | ret =>
+    rw [hstop] at h1
+    simp only at h1 ⊢
+    obtain ⟨u1, u2⟩ := Proofs.Mvp4.run_halt_unique mvp1Fetch mvp1Fetch app ⟨ctx, 0#32⟩ n fuel hk .ret e1 h1.1
+    subst u1
+    obtain ⟨f1, f2⟩ := e2 (by intro hc; cases hc)
+    have hfin : (runMvp1 app ⟨ctx, 0#32⟩ n).final = (runMvp1 app ⟨ctx, 0#32⟩ fuel).final := u2
+    refine ⟨rfl, fun r => ?_, ?_⟩
+    · rw [f1, hfin]; exact h1.2.1.regs r
+    · rw [f2, hfin]; exact h1.2.1.mem
+  | offEnd =>
+    rw [hstop] at h1
+    simp only at h1 ⊢
+    obtain ⟨u1, u2⟩ := Proofs.Mvp4.run_halt_unique mvp1Fetch mvp1Fetch app ⟨ctx, 0#32⟩ n fuel hk .offEnd e1 h1.1
+    subst u1
+    obtain ⟨f1, f2⟩ := e2 (by intro hc; cases hc)
+    have hfin : (runMvp1 app ⟨ctx, 0#32⟩ n).final = (runMvp1 app ⟨ctx, 0#32⟩ fuel).final := u2
+    refine ⟨rfl, fun r => ?_, ?_⟩
+    · rw [f1, hfin]; exact h1.2.1.regs r
+    · rw [f2, hfin]; exact h1.2.1.mem
+  | error er =>
+    rw [hstop] at h1
+    simp only at h1 ⊢
+    exact (Proofs.Mvp4.run_halt_unique mvp1Fetch mvp1Fetch app ⟨ctx, 0#32⟩ n fuel hk .err e1 h1.1).1
+
+/-- Non-vacuity: a member of `BranchOnly` with a backward branch (a loop that flushes twice), a `mul` and a `ret`
+(`Proofs.Mvp60SlWitness.brApp`); the one-unit model ends with `ret` and the registers of MVP-1 (`a0 = 6`, `s0 = 0`) -/
+example : Model.Mvp60.BranchOnly Proofs.Mvp60SlWitness.brApp = true ∧
+    Proofs.Mvp60SlWitness.obsR (Model.Mvp60.run Proofs.Mvp60SlWitness.brApp Proofs.Mvp60SlWitness.ctx0 1 1 5000).halt
+        (Model.Mvp60.run Proofs.Mvp60SlWitness.brApp Proofs.Mvp60SlWitness.ctx0 1 1 5000).final.ctx =
+      Proofs.Mvp60SlWitness.obsR (runMvp1 Proofs.Mvp60SlWitness.brApp ⟨Proofs.Mvp60SlWitness.ctx0, 0⟩ 40).halt
+        (runMvp1 Proofs.Mvp60SlWitness.brApp ⟨Proofs.Mvp60SlWitness.ctx0, 0⟩ 40).final.ctx :=
+  ⟨Proofs.Mvp60SlWitness.br_class.1, Proofs.Mvp60SlWitness.br_p1.trans Proofs.Mvp60SlWitness.br_seq.symm⟩
+
+end Props.C01
